@@ -265,7 +265,7 @@ Arguments t_strats {L}.
    A simple concrete ledger: a worker is the list of its Resource entries in insertion order
    (name, available, total) -- several entries may carry the same name (different ids); a strategy
    requests `any`-id quantities by name (distinct names: they are keys of one dict).
-   Follows workload/resources.py: __gt__ (per-name sum of availabilities >= quantity), allocate
+   Follows workload/resources.py: __gt__ (cumulative play of the requests on a scratch vector), allocate
    (walk the entries in order, take what each has), __deepcopy__ (availability := total). *)
 Record entry := mkE { e_name : Z; e_avail : Z; e_total : Z }.
 Definition sworker := list entry.
@@ -276,7 +276,30 @@ Fixpoint avail_of (w : sworker) (n : Z) : Z :=
   | [] => 0
   | e :: r => if e_name e =? n then e_avail e + avail_of r n else avail_of r n
   end.
-Definition s_can (w : sworker) (s : sstrat) : bool :=
+(* Resources.__gt__ as it is now: the requests are played one after the other on a scratch copy of the
+   available quantities -- from every matching cell, in order, min(available, remaining) while something
+   remains -- and the test fails as soon as a request cannot be served completely *)
+Fixpoint s_play (w : sworker) (n q : Z) : sworker * Z :=
+  match w with
+  | [] => ([], q)
+  | e :: r =>
+      if (e_name e =? n) && (0 <? q) then
+        let taken := Z.min (e_avail e) q in
+        let '(r', rem) := s_play r n (q - taken) in
+        (mkE (e_name e) (e_avail e - taken) (e_total e) :: r', rem)
+      else
+        let '(r', rem) := s_play r n q in (e :: r', rem)
+  end.
+Fixpoint s_can_from (w : sworker) (req : list (Z * Z)) : bool :=
+  match req with
+  | [] => true
+  | r :: rest => let '(w', rem) := s_play w (fst r) (snd r) in
+                 if 0 <? rem then false else s_can_from w' rest
+  end.
+Definition s_can (w : sworker) (s : sstrat) : bool := s_can_from w (ss_req s).
+(* the per-request form (each request against the untouched availability); Proofs/GreedyP3.v: the two agree
+   for non-negative requests on distinct names *)
+Definition s_can_each (w : sworker) (s : sstrat) : bool :=
   forallb (fun r => snd r <=? avail_of w (fst r)) (ss_req s).
 Fixpoint s_take (w : sworker) (n q : Z) : sworker :=
   match w with
